@@ -9,8 +9,6 @@
 ;; model, proved in Lean, cvc5 derives it from the axioms below; it is only ever instantiated by the
 ;; generator because as an E-matching rule it cascades down every cat chain).
 ;; The sort is called Bytes because z3 reserves the name Seq.
-(set-option :auto_config false)
-(set-option :smt.mbqi false)
 (declare-sort Bytes 0)
 (declare-fun len (Bytes) Int)
 (declare-fun cat (Bytes Bytes) Bytes)
@@ -88,3 +86,13 @@
 (assert (forall ((s Bytes)) (! (=> (>= (len s) 2) (= (dbe16 (take s 2)) (dbe16 s))) :pattern ((dbe16 (take s 2))))))
 (assert (forall ((s Bytes)) (! (=> (>= (len s) 4) (= (dbe32 (take s 4)) (dbe32 s))) :pattern ((dbe32 (take s 4))))))
 (assert (forall ((s Bytes)) (! (=> (>= (len s) 8) (= (dbe64 (take s 8)) (dbe64 s))) :pattern ((dbe64 (take s 8))))))
+
+; 10 (added with the engine) hex, md5, decimal
+(declare-fun hexenc (Bytes) Bytes) (declare-fun hexdec (Bytes) Bytes) (declare-fun md5 (Bytes) Bytes) (declare-fun dec10 (Int) Bytes)
+(assert (forall ((s Bytes)) (! (= (len (hexenc s)) (* 2 (len s))) :pattern ((hexenc s)))))
+(assert (forall ((s Bytes)) (! (= (idx0 (hexenc s)) (- 1)) :pattern ((hexenc s)))))
+(assert (forall ((s Bytes)) (! (= (hexdec (hexenc s)) s) :pattern ((hexenc s)))))
+(assert (forall ((s Bytes)) (! (= (len (md5 s)) 16) :pattern ((md5 s)))))
+(assert (forall ((x Int)) (! (=> (and (<= 0 x) (< x 10000000000)) (and (= (len (dec10 x)) 10) (= (idx0 (dec10 x)) (- 1)))) :pattern ((dec10 x)))))
+; at over zeros / idx0 of a NUL-free prefix followed by zeros
+(assert (forall ((s Bytes) (n Int)) (! (=> (and (<= 0 n) (<= n (len s))) (=> (= (idx0 s) (- 1)) (= (idx0 (take s n)) (- 1)))) :pattern ((idx0 (take s n))))))
